@@ -104,14 +104,22 @@ def write_direct(cfg, ops, sim):
     else:
         from pyjelly.integrations.rdflib.serialize import RDFLibTermEncoder as Enc
     cls = TripleStream if cfg["physical"] == "TRIPLES" else QuadStream
-    stream = cls(encoder=Enc(lookup_preset=enc_preset), options=options)
-    push = stream.triple if cfg["physical"] == "TRIPLES" else stream.quad
-    conv = nodes.conv_stmt(cfg)
     out = io.BytesIO()
     refused = 0
     written = []
     n_stmt = -1
-    stream.enroll()
+    try:
+        stream = cls(encoder=Enc(lookup_preset=enc_preset), options=options)
+        stream.enroll()
+    except Exception as e:  # noqa: BLE001
+        if how == "same":
+            raise
+        # two different presets were handed over: refusing the pair is as good as declaring the encoder's sizes
+        sim.event("contradictory_presets_refused", type(e).__name__)
+        sim.count("direct_contradictory_presets_refused")
+        return b"", 0, []
+    push = stream.triple if cfg["physical"] == "TRIPLES" else stream.quad
+    conv = nodes.conv_stmt(cfg)
     for op in ops:
         if op[0] == "bad":
             s_, p_ = (T.from_json(x) for x in op[1:3])
@@ -175,6 +183,8 @@ def execute_direct(plan, sim):
                  "msg": f"Stream driven directly raised {type(e).__name__}: {e}"}], None
     if refused:
         sim.count("direct_ns_refused", refused)
+    if not data and cfg["options_preset"] != "same":
+        return [], None             # the contradictory pair was refused: nothing was written
     r = refdec.decode_stream(data, True, strict=True)
     key = (repr(sorted(cfg.items())), repr(plan["ops"])) if len(stmts) >= 2 else None
     if not r.ok:
@@ -286,11 +296,8 @@ def execute(plan, sim):
                   "msg": f"implicit closes={a['implicit_graph_close']} open at end={a['graph_open_at_end']}"})
     if not cfg["ns"] and a["namespace_rows"]:
         v.append({"clause": "C03.namespace_rows_with_option_off", "sig": {}, "msg": "namespace rows written"})
-    want_version = 2 if cfg["ns"] else 1
-    if cfg["entry"] not in ("sink_serialize", "graph_serialize_guess", "flat_file_guess", "shared_stream") \
-            and r.options["version"] != want_version:
-        v.append({"clause": "C03.version", "sig": {"got": r.options["version"]},
-                  "msg": f"version {r.options['version']} with namespace_declarations={cfg['ns']}"})
+    # ("version 2 precisely when declarations are enabled" is C13's clause; C03 only needs namespace rows to appear in
+    #  version-2 streams, which the strict reference decoder enforces)
     got = [norm_item(i) for i in r.statements()]
     exp = expected_items(cfg, stmts)
     if isinstance(exp, set):
